@@ -407,9 +407,44 @@ def realise_boxes(spec, A, B):
     return live, byk[A.key], byk[B.key], None
 
 
+def far_thin_family():
+    """deterministic pairs on the pi square (the largest diameter among the curves): a thin element (h_t = 1/128 ... 1/256)
+    in one corner and a coarse element that starts earlier / later in the opposite corner, both roles -- panels several
+    kernel widths sqrt(h_t) apart although the time lag of the pair is of order one"""
+    spec = {'kind': 'param', 'curve': 'PiSquare', 'ts': [0.0, 1.0], 'xs': None}
+    out = []
+    # box = [space root, space level, index, time root, time level, index]
+    thin_late = [[0, 4, 0, 0, 7, 127], [0, 4, 1, 0, 7, 100], [0, 3, 0, 0, 8, 255]]
+    coarse_early = [[1, 2, 3, 0, 1, 0], [2, 2, 0, 0, 1, 0], [1, 1, 1, 0, 0, 0]]
+    for a in thin_late:
+        for b in coarse_early:
+            out.append({'fam': 'two_boxes', 'spec': spec, 'A': a, 'B': b})      # thin late test, coarse early trial
+    thin_mid = [[0, 6, 63, 0, 7, 63], [0, 5, 31, 0, 7, 63], [0, 6, 62, 0, 8, 127]]
+    coarse_after = [[2, 2, 3, 0, 1, 1], [3, 2, 0, 0, 1, 1], [2, 1, 1, 0, 1, 1]]
+    for a in thin_mid:
+        for b in coarse_after:
+            out.append({'fam': 'two_boxes', 'spec': spec, 'A': b, 'B': a})      # coarse test starting where the thin trial ends
+    return out
+
+
+def realise_two(case):
+    spec = case['spec']
+    probe = Live(spec)
+
+    def mk(b):
+        root, lx, k, rt, lt, kt = b
+        return box_from(probe.n_t, probe.n_x, rt * UU + kt * (UU >> lt), lt, root * UU + k * (UU >> lx), lx, probe.glued)
+    A, B = mk(case['A']), mk(case['B'])
+    if A is None or B is None:
+        return None, None, None, 'class_not_constructible_here'
+    return realise_boxes(spec, A, B)
+
+
 def realise(case, max_aspect=32.0):
     """-> (live, test, trial, reason).  test/trial are real elements (or DummyElements); reason is None on success"""
     spec = case['spec']
+    if case['fam'] == 'two_boxes':
+        return realise_two(case)
     if case['fam'] == 'target':
         probe, A, B, reason = targets_for(case, max_aspect)
         if reason:
